@@ -451,6 +451,15 @@ pub fn run_step(ws: &Ws, step: &Value) -> Value {
             }
         }
         "damage" => damage(&ws.root.join("archive"), step),
+        "rename" => {
+            // renumber a version: band directories carry their id only in their name
+            let root = ws.root.join("archive");
+            let name = |k: &str| step.get(k).and_then(Value::as_str).unwrap_or("").to_string();
+            match std::fs::rename(root.join(name("from")), root.join(name("to"))) {
+                Ok(()) => json!({"result": "ok"}),
+                Err(e) => json!({"result": "harness_error", "msg": format!("{e}")}),
+            }
+        }
         "transport" => {
             let calls = step.get("calls").and_then(Value::as_array).cloned().unwrap_or_default();
             let (mut out, r) = run_op(ws, plan, &runtime, |t, _m| async move {
